@@ -3,7 +3,9 @@
 Runtime monitoring, five clauses (DESIGN §6 "C09", reference model R2 = vlib/ref/xlverlet.py):
 
 (a) consistency   Electronic_Structure.forward(dm_prop="XL-BOMD", P0 = converged D) against the SCF call on
-                  the same geometry: energies, forces, D(P)=P; plain and Krylov (rank 1-4, T_el 300/1500 K).
+                  the same geometry: energies, forces, D(P)=P; plain and Krylov (rank 1-4, T_el 300/1500 K);
+                  at T_el where the occupations are fractional: force = -d(Etot + E_entropy)/dx by Richardson
+                  central differences at the self-consistent finite-T density.
 (b) fixed point   the REAL XL_BOMD/KSA_XL_BOMD one_step/_propagate_P/circular buffer, driven with the
                   electronic-structure call replaced by a stub that returns D* = P(0) and zero force:
                   every k in 3..9 x every start step i0 in 0..k x a context rebuilt at every step_done;
@@ -32,7 +34,8 @@ RULE = ("cases: 'recur' = (variant in {XL_BOMD, KSA_XL_BOMD, XL_BOMD+Langevin}, 
         "T_el}; 'stationary' = (engine, k) real run from a relaxed geometry at rest; 'dyn' = (engine, k, molecule, dt) "
         "real runs at dt, dt/2, dt/4 + BOMD reference at dt/8.  A case is non-trivial when its deciding monitor "
         "compared at least one executed step/call (recur: >= 4 buffer wraps driven; consist: SCF reference converged; "
-        "stationary: |F| < 1e-6 reached; dyn: all four trajectories completed); distinct by SHA-1 of the case")
+        "stationary: |F| < 1e-6 reached; dyn: all four trajectories completed; freeenergy = (molecule, T_el, rank): "
+        "finite-T self-consistency reached and occupations fractional by >= 1e-4); distinct by SHA-1 of the case")
 ASSUMPTIONS = [
     "float64 CPU, one thread",
     "coefficient table of Niklasson et al. JCP 130, 214109 (2009) typed from recollection in vlib/ref/xlverlet.py and "
@@ -49,7 +52,7 @@ ASSUMPTIONS = [
 REQUIRED_MONITORS = ["consistency_calls_compared", "fixedpoint_steps_checked", "fixedpoint_restarts_checked",
                      "recurrence_steps_compared", "recurrence_restarts_checked", "real_checkpoint_resumes",
                      "impulse_coefficients_compared", "stability_polynomials_checked", "closed_loop_steps_driven",
-                     "stationary_real_steps", "dyn_families_judged"]
+                     "stationary_real_steps", "dyn_families_judged", "free_energy_directions_checked"]
 CASE_TIMEOUT = 900.0
 ORDERS = (3, 4, 5, 6, 7, 8, 9)
 VARIANTS = ("xl", "ksa", "xl_damp")
@@ -123,11 +126,23 @@ def gen_cases(tier, seed):
         pick = [names[int(j)] for j in g.permutation(len(names))[:3]]
         cases.append({"kind": "consist", "mols": pick, "method": method, "geom_seed": int(g.integers(0, 2**31)),
                       "sigma": 0.05})
+    # ---- (a) at an electronic temperature where the entropy term matters: force = -d(Etot + E_entropy)/dx
+    if tier == "quick":
+        fe = [("H2O", 20000.0, 4), ("HCN", 15000.0, 2)]
+    else:
+        fe = [("H2O", 20000.0, 4), ("H2O", 12000.0, 1), ("HCN", 15000.0, 2), ("CH2O", 12000.0, 3), ("NH3", 20000.0, 4),
+              ("CO", 15000.0, 2), ("C2H4", 10000.0, 3), ("HF", 25000.0, 1), ("N2", 15000.0, 4), ("CH4", 25000.0, 2)]
+    for name, T_el, rank in fe:
+        cases.append({"kind": "freeenergy", "mol": name, "method": "AM1", "T_el": T_el, "rank": rank,
+                      "geom_seed": int(g.integers(0, 2**31)), "ndir": 1 if tier == "quick" else 2})
     # ---- (b)(c)(d) stub-driven, exhaustive: identical in both tiers (the space is finite and is covered)
     for variant in VARIANTS:
         for k in ORDERS:
             cases.append({"kind": "recur", "variant": variant, "k": k, "seq_seed": int(g.integers(0, 2**31))})
-    return cases
+    # expensive first: dyn, free energy, recur by decreasing k, then the rest
+    cost = {"dyn": 0, "freeenergy": 1, "recur": 2, "stationary": 3, "consist": 4}
+    order = sorted(range(len(cases)), key=lambda i: (cost[cases[i]["kind"]], -cases[i].get("k", 0), i))
+    return [cases[i] for i in order]
 
 
 # =====================================================================================================
@@ -725,6 +740,83 @@ def _run_consist(case):
             "cells": cells, "obs": obs}
 
 
+def _run_freeenergy(case):
+    """clause (a) with the electronic entropy term accounted for: at a self-consistent finite-T_el density
+    (P = D(P), reached by iterating the XL-BOMD call with its own Krylov update P <- P + dP2dt2) the returned
+    force must be minus the Richardson central difference of the returned Etot + Electronic_entropy."""
+    from vlib import run
+    Z, X, q, mult = gen.molecule(case["mol"])
+    g = np.random.default_rng(case["geom_seed"])
+    X = gen.distort(X, g, sigma=0.05)
+    X = X @ gen.generic_rotation(X, g).T
+    sett = run.settings(case["method"], eps=1e-11, converger=(2,))
+    xl = {"k": 6, "max_rank": int(case["rank"]), "err_threshold": 0.0, "T_el": float(case["T_el"])}
+    calls = [0]
+
+    def solve(Xc, P=None):
+        with run.quiet():
+            mol, es, _ = run.build(Z, Xc, sett)
+            if P is None:
+                es(mol)
+                P = mol.dm.detach().clone()
+            res = None
+            for it in range(150):
+                es(mol, P0=P.clone(), dm_prop="XL-BOMD", xl_bomd_params=dict(xl))
+                calls[0] += 1
+                res = float((mol.dm - P).abs().max())
+                if res < 2e-11:
+                    return mol, P, res
+                P = P + mol.dP2dt2
+        return None, P, res
+
+    mol, P, res = solve(X)
+    if mol is None:
+        return {"ineligible": "finite-T self-consistency not reached (residual %.1e)" % res}
+    occ = run.npy(mol.Fermi_occ)
+    frac = float(np.abs(occ - np.round(occ)).max())
+    ent = float(run.npy(mol.Electronic_entropy)[0])
+    if frac < 1e-4:
+        return {"ineligible": "occupations integral at this T_el (entropy term negligible)"}
+    F = run.npy(mol.force)[0]
+    mg, viol, obs = _Margins(), [], {"T_el": case["T_el"], "rank": case["rank"], "max_fractional_occupation": frac,
+                                     "E_entropy": ent, "directions": []}
+    ndone = 0
+    for _ in range(case["ndir"]):
+        d = g.normal(size=X.shape)
+        d /= np.linalg.norm(d)
+        D, DE, ok = {}, {}, True
+        for h in (2e-3, 1e-3):
+            vals = []
+            for sgn in (+1, -1):
+                m2, _, r2 = solve(X + sgn * h * d, P)
+                if m2 is None:
+                    ok = False
+                    break
+                vals.append((float(run.npy(m2.Etot)[0]) + float(run.npy(m2.Electronic_entropy)[0]),
+                             float(run.npy(m2.Etot)[0])))
+            if not ok:
+                break
+            D[h] = (vals[0][0] - vals[1][0]) / (2 * h)
+            DE[h] = (vals[0][1] - vals[1][1]) / (2 * h)
+        if not ok:
+            continue
+        dOm = (4 * D[1e-3] - D[2e-3]) / 3.0
+        dE = (4 * DE[1e-3] - DE[2e-3]) / 3.0
+        Fd = float((F * d).sum())
+        ndone += 1
+        tol = 5e-6 + 1e-6 * abs(Fd)
+        obs["directions"].append({"F.d": Fd, "-dOmega/ds": -dOm, "-dEtot/ds": -dE, "entropy_share": dE - dOm})
+        if mg.upd("a_free_energy_force", abs(Fd + dOm), tol):
+            viol.append({"clause": "consistency-free-energy-force", "mech": "xl-force-not-gradient-of-free-energy",
+                         "detail": {"mol": case["mol"], "T_el": case["T_el"], "rank": case["rank"], "F.d": Fd,
+                                    "-dOmega/ds": -dOm, "-dEtot/ds": -dE, "coords": X.tolist(), "direction": d.tolist()}})
+    if ndone == 0:
+        return {"ineligible": "displaced finite-T solutions did not converge"}
+    return {"nontrivial": True, "violations": viol, "margins": mg.m,
+            "monitors": {"free_energy_directions_checked": ndone, "free_energy_xl_calls": calls[0]},
+            "cells": ["a/free-energy/%s/rank%d" % (case["method"], case["rank"])], "obs": obs}
+
+
 # =====================================================================================================
 # real MD helpers (stationary, dyn)
 # =====================================================================================================
@@ -906,6 +998,8 @@ def run_case(case):
         return _run_stationary(case)
     if kind == "dyn":
         return _run_dyn(case)
+    if kind == "freeenergy":
+        return _run_freeenergy(case)
     raise ValueError("unknown case kind %r" % kind)
 
 
